@@ -4,7 +4,7 @@ from common import sx, rng_for
 
 ID = 'C19'
 RULE = ('run_timeout is called with generated worker functions: sleeping / busy-looping for a duration that sweeps across the limit '
-        '(0.1x .. 3x, incl. equal), returning a value or raising, swallowing the injected exception once (blanket except Exception) '
+        '(0.1x .. 3x, incl. equal), returning a value (7, None, 0, False, an empty string or list, 0.0) or raising (KeyError, MemoryError and a subclass, ValueError, RuntimeError, ArithmeticError), swallowing the injected exception once (blanket except Exception) '
         'and carrying on, blocking in one native sleep, nested inside another run_timeout, and back-to-back after a timeout; the '
         'observed outcome class must be in the set the extracted `allowed` gives for (duration, limit, jitter tolerance); after '
         'the call returns the worker function must not be executing any more; the caller must see nothing but the result, the '
@@ -15,6 +15,15 @@ TRUSTED = ['wall-clock durations are measured with a jitter tolerance of 60 ms +
 PARTIAL = ['GIL scheduling, delivery latency of PyThreadState_SetAsyncExc and native blocking are runtime behaviour the LTS does not '
            'exhibit; the theorems are about the protocol logic, the runs test the real threads']
 KINDS = ['sleep', 'busy', 'raise', 'swallow', 'native', 'nested', 'backtoback']
+# what the worker function returns / raises (index = the value / exception number of the model's program)
+RET = [7, None, 0, False, '', [], 0.0]
+
+
+class _OwnMemoryError(MemoryError):
+    pass
+
+
+EXC = [KeyError, MemoryError, _OwnMemoryError, ValueError, RuntimeError, ArithmeticError]
 
 
 def batches(tier, seed):
@@ -25,8 +34,20 @@ def batches(tier, seed):
         kind = KINDS[i % len(KINDS)]
         limit = rng.choice([0.05, 0.08, 0.12, 0.2])
         factor = rng.choice([0.0, 0.1, 0.3, 0.6, 0.9, 1.0, 1.1, 1.5, 2.0, 3.0])
-        cases.append({'kind': kind, 'limit_ms': int(limit * 1000), 'dur_ms': int(limit * 1000 * factor), '_i': i})
+        cases.append({'kind': kind, 'limit_ms': int(limit * 1000), 'dur_ms': int(limit * 1000 * factor), '_i': i,
+                      'ret': rng.randrange(len(RET)) if rng.random() < 0.6 else 0, 'exc': rng.randrange(len(EXC))})
     yield 'programs', cases
+    # functions that finish at once under a generous limit: no timing ambiguity, the outcome must be the function's own for
+    # every kind of return value and exception (also directly after a call that timed out)
+    inst = []
+    for j in range(len(RET)):
+        inst.append({'kind': 'sleep', 'limit_ms': 1500, 'dur_ms': 0, 'ret': j, 'exc': 0, '_i': 1000 + j})
+        inst.append({'kind': 'nested', 'limit_ms': 1500, 'dur_ms': 0, 'ret': j, 'exc': 0, '_i': 1100 + j})
+    for j in range(len(EXC)):
+        inst.append({'kind': 'raise', 'limit_ms': 1500, 'dur_ms': 0, 'ret': 0, 'exc': j, '_i': 1200 + j})
+    for j in range(0, len(RET), 2):
+        inst.append({'kind': 'sleep', 'limit_ms': 1500, 'dur_ms': 0, 'ret': j, 'exc': 0, '_after_timeout': True, '_i': 1300 + j})
+    yield 'instant-programs', inst
 
 
 def run_case(case):
@@ -54,6 +75,8 @@ def _run_once(case):
     kind = case['kind']
     running = threading.Event()
     swallowed = []
+    ret_i, exc_i = case.get('ret', 0) % len(RET), case.get('exc', 0) % len(EXC)
+    ret_v = RET[ret_i]
 
     def body():
         running.set()
@@ -63,10 +86,10 @@ def _run_once(case):
                 x = 0
                 while time.perf_counter() - t0 < dur:
                     x += 1
-                return 7
+                return ret_v
             if kind == 'native':
                 time.sleep(dur)
-                return 7
+                return ret_v
             if kind == 'swallow':
                 t0 = time.perf_counter()
                 while time.perf_counter() - t0 < dur:
@@ -74,16 +97,24 @@ def _run_once(case):
                         time.sleep(0.005)
                     except Exception:
                         swallowed.append(1)
-                return 7
+                return ret_v
             # sleep / raise / nested / backtoback: sleep in small steps so that an injected exception is seen promptly
             t0 = time.perf_counter()
             while time.perf_counter() - t0 < dur:
                 time.sleep(0.003)
             if kind == 'raise':
-                raise KeyError('own')
-            return 7
+                raise EXC[exc_i]('own')
+            return ret_v
         finally:
             running.clear()
+
+    if case.get('_after_timeout'):
+        try:
+            run_timeout(0.03, lambda: time.sleep(0.4))
+        except TimeoutError:
+            pass
+        except BaseException as e:
+            return {'fail': {'clause': 'caller-sees-foreign-exception:%s' % type(e).__name__, 'detail': 'warm-up call that times out: %s' % e}, 'tags': ['kind:' + kind]}
 
     def call():
         if kind == 'nested':
@@ -92,13 +123,15 @@ def _run_once(case):
     t0 = time.perf_counter()
     try:
         r = call()
-        obs = ['value', r]
+        same = [j for j, v in enumerate(RET) if type(v) is type(r) and v == r]
+        obs = ['value', same[0] if same else 99]
     except TimeoutError:
         obs = 'timeout'
-    except KeyError:
-        obs = ['raise', 1]
     except BaseException as e:
-        return {'fail': {'clause': 'caller-sees-foreign-exception:%s' % type(e).__name__, 'detail': '%s: %s' % (type(e).__name__, e)}, 'tags': ['kind:' + kind]}
+        if kind == 'raise' and type(e) is EXC[exc_i]:
+            obs = ['raise', exc_i]
+        else:
+            return {'fail': {'clause': 'caller-sees-foreign-exception:%s' % type(e).__name__, 'detail': '%s: %s' % (type(e).__name__, e)}, 'tags': ['kind:' + kind]}
     wall = time.perf_counter() - t0
     tags = ['kind:' + kind, 'obs:%s' % (obs if isinstance(obs, str) else obs[0])]
     # nothing is running any more
@@ -115,7 +148,7 @@ def _run_once(case):
             return {'fail': {'clause': 'later-call-affected:%s' % type(e).__name__, 'detail': 'after %s' % (obs,)}, 'tags': tags}
         if r2 != 5:
             return {'fail': {'clause': 'later-call-affected', 'detail': 'returned %r' % (r2,)}, 'tags': tags}
-    res = ['raise', 1] if kind == 'raise' else ['value', 7]
+    res = ['raise', exc_i] if kind == 'raise' else ['value', ret_i]
     tol = 60 + case['limit_ms'] // 2
     q = sx(['timeout_allowed', res, kind == 'swallow', max(1, case['dur_ms']), case['limit_ms'], tol])
     return {'queries': [q], 'impl': obs, 'nontrivial': kind in ('swallow', 'native', 'nested') or 0.5 <= (case['dur_ms'] + 1) / case['limit_ms'] <= 2.0,
